@@ -340,6 +340,30 @@ pub fn run(ctx: &Ctx) {
             check_chain(&gen_chain(rng), st);
         }
     });
+    // cells as the library builds them for each family
+    let mut st = Stats::new();
+    for (fam, name, angle) in [
+        (packing::CrystalFamily::Monoclinic, "Monoclinic", PI / 2.),
+        (packing::CrystalFamily::Orthorhombic, "Orthorhombic", PI / 2.),
+        (packing::CrystalFamily::Tetragonal, "Tetragonal", PI / 2.),
+        (packing::CrystalFamily::Hexagonal, "Hexagonal", PI / 3.),
+    ]
+    .iter()
+    {
+        for len in [0.01, 1., 2.5, 8., 1e9].iter() {
+            let cell = Cell2::from_family(*fam, *len);
+            let mut c = gen_case(&mut crate::common::rng_for(ctx.seed, 1400 + (*len as u64)));
+            // (what such a cell holds is the library's choice; the views must agree with it)
+            let _ = angle;
+            c.length = cell.a();
+            c.ratio = cell.b() / cell.a();
+            c.angle = cell.angle();
+            c.family = name.to_string();
+            check_cell(&cell, &c, &mut st);
+            st.count("cells_from_family");
+        }
+    }
+    ctx.merge(st);
     ctx.set_min_nontrivial(1000);
 }
 
